@@ -136,9 +136,28 @@ func (w *World) lockSetup() {
 	if err := json.Unmarshal(a, alt); err != nil {
 		panic("harness: log list: " + err.Error())
 	}
+	// the second list: one log is dropped, or (state-only change) one usable log is retired
+	stateOnly := t.Chance(1, 2)
+	w.llRetired = ""
 	for i := len(alt.Operators) - 1; i >= 0; i-- {
-		if n := len(alt.Operators[i].Logs); n > 1 {
+		n := len(alt.Operators[i].Logs)
+		if n <= 1 {
+			continue
+		}
+		if !stateOnly {
 			alt.Operators[i].Logs = alt.Operators[i].Logs[:n-1]
+			break
+		}
+		done := false
+		for _, l := range alt.Operators[i].Logs {
+			if l.State != nil && l.State.Usable != nil {
+				l.State = &loglist3.LogStates{Retired: &loglist3.LogState{Timestamp: w.epoch.AddDate(0, -1, 0)}}
+				w.llRetired = l.URL
+				done = true
+				break
+			}
+		}
+		if done {
 			break
 		}
 	}
@@ -158,7 +177,7 @@ func (w *World) lockSetup() {
 	// log list re-read every 7 s of fake time; the periodic root refresh of a distributor never comes due
 	// again (schedule.Every runs it once, at once, for every new distributor)
 	w.proxy.Run(w.ctx, 7*time.Second, 100000*time.Hour)
-	s.Logf("lock: proxy over %s", filepath.Base(w.llPath))
+	s.Logf("lock: proxy over %s, second list retires %q", filepath.Base(w.llPath), w.llRetired)
 }
 
 func (w *World) startOp(kind string, f func(ctx context.Context)) {
@@ -228,12 +247,21 @@ func (w *World) sideOptions() []kernel.Option {
 		opts = append(opts,
 			kernel.Option{Key: "log list changes", Weight: 2, Apply: func() {
 				w.llWhich = 1 - w.llWhich
+				w.llSince, w.llStolen = w.s.Now(), false
+				for _, c := range w.calls {
+					if c.Kind == "proxy" && !c.Checked {
+						c.ListMoved = true
+					}
+				}
 				if err := os.WriteFile(w.llPath, w.llJSON[w.llWhich], 0o644); err != nil {
 					panic("harness: " + err.Error())
 				}
 				w.s.Fault("loglist.change")
 			}},
 			kernel.Option{Key: "llm refresh", Weight: 1, Apply: func() {
+				// a direct RefreshLogList consumes the change without notifying anybody: from here on it cannot
+				// be told which list the Proxy works from, until the file changes again
+				w.llStolen = true
 				w.startOp("llm-refresh", func(ctx context.Context) { _, _ = w.llm.RefreshLogList(ctx) })
 			}},
 			kernel.Option{Key: "llm two latest", Weight: 1, Apply: func() {
@@ -262,4 +290,22 @@ func (w *World) harvestOps() {
 		w.s.Logf("%s done", o.party)
 		w.s.Probe("sideop.done")
 	}
+}
+
+// proxyList: which of the two log lists the Proxy must be working from when a call starts now: the file
+// has held that list for more than two refresh periods and nothing of the proxy's own machinery (the
+// goroutines descending from the driver) is being held at a seam by the driver; -1 = cannot be told.
+func (w *World) proxyList(parked []*kernel.Parked) int {
+	if w.proxy == nil || w.llStolen || w.s.Now()-w.llSince <= 15*time.Second {
+		return -1
+	}
+	for _, p := range parked {
+		if kernel.RootOf(p.Party) == kernel.DriverName {
+			return -1
+		}
+	}
+	if w.rt.Blocked() > 0 {
+		return -1
+	}
+	return w.llWhich
 }
